@@ -46,6 +46,16 @@ def scenarios():
                     out.append(setup(before) + [sub, {"op": "race", "hold": "subs.bypattern", "a": pub, "b": [unsub]}, pub2, {"op": "quiesce"}])
                     # subscribe, then unsubscribe inside a publish, then subscribe again
                     out.append(setup(before) + [sub, {"op": "race", "hold": "subs.bypattern", "a": pub, "b": [unsub, dict(sub, id=7)]}, pub2, {"op": "quiesce"}])
+    # a subscriber leaves (connection loss / DISCONNECT) and a publish for it is handled while its teardown is parked between the
+    # removal from the local registry and the removal of its subscriptions: the recipient has vanished - nothing may stick
+    sweeps = [{"op": "sweep", "n": 1, "ms": 4500}, {"op": "sweep", "n": 1, "ms": 9000}]
+    for q in (1, 2):
+        for how in ("close", "disconnect"):
+            for npub in (1, 3):
+                sub = {"op": "sub", "c": 1, "id": 5, "fs": [{"f": ["a", "b"], "q": q}]}
+                leave = {"op": "close", "c": 1} if how == "close" else {"op": "send", "c": 1, "kind": "DISCONNECT"}
+                pubs = [{"op": "pub", "c": 9, "t": ["a", "b"], "p": "gone%d" % i, "q": 1, "r": False, "id": 50 + i} for i in range(npub)]
+                out.append(setup(False) + [sub, {"op": "race", "hold": "subs.delete", "a": leave, "b": pubs}] + sweeps + [{"op": "quiesce"}])
     return [{"nodes": [1], "ops": o} for o in out]
 
 
@@ -83,6 +93,8 @@ def classify(scn, line):
         return "race:owed-message-never-received"
     if e["op"] == "srv.write" and e.get("kind") == "PUBLISH":
         return "race:PUBLISH-to-a-session-that-may-not-get-it"
+    if e["op"] == "probe":
+        return "race:identifiers-held-at-quiescence"
     if e["op"] in ("stall", "process.died"):
         return "race:" + e["op"]
     return "race:%s-unexplained" % e["op"]
